@@ -42,8 +42,14 @@ type Config struct {
 	// FCLI: catalogue commands whose flag variants are in the alphabet (event "fcli:<name>+<flag>[+<flag>]":
 	// the catalogue's argument list preceded by each single local flag and each unordered pair of local
 	// flags, as discovered from the binary under test)
-	FCLI  []string `json:"fcli,omitempty"`
-	Depth int      `json:"depth"` // 0 = until no event is enabled
+	FCLI []string `json:"fcli,omitempty"`
+	// COMP: catalogue commands whose shell completion is in the alphabet: event "comp:<name>" runs the
+	// hidden `git-bug __complete <command path> ""` (what the shell runs on TAB), "comp:<name>+<flag>"
+	// `git-bug __complete <command path> --<flag> ""` for every local flag that takes a value
+	COMP []string `json:"comp,omitempty"`
+	// COMPFlags: also the flag-value completions (sweeps); without it only the argument completion
+	COMPFlags bool `json:"comp_flags,omitempty"`
+	Depth     int  `json:"depth"` // 0 = until no event is enabled
 }
 
 // Env is what an execution needs from the check run.
@@ -637,6 +643,16 @@ func (x *execution) enabled() []string {
 	for _, c := range x.cfg.FCLI {
 		out = append(out, flagVariants(c, x.env.Flags[c])...)
 	}
+	for _, c := range x.cfg.COMP {
+		out = append(out, "comp:"+c)
+		if x.cfg.COMPFlags {
+			for _, f := range x.env.Flags[c] {
+				if f.Type != "" {
+					out = append(out, "comp:"+c+"+"+f.Name)
+				}
+			}
+		}
+	}
 	for _, c := range x.cfg.CLI {
 		out = append(out, "cli:"+c)
 	}
@@ -744,6 +760,8 @@ func actorKind(event string) string {
 		return "command-" + arg + "-as-other-uid"
 	case "fcli":
 		return "command-" + flagLabel(arg)
+	case "comp":
+		return "command-" + compLabel(arg)
 	case "step":
 		return "step-of-other-open"
 	}
@@ -789,6 +807,8 @@ func (x *execution) apply(event string, prefix bool) {
 	case "fcli":
 		parts := strings.Split(arg, "+")
 		x.evCLI(event, parts[0], false, parts[1:])
+	case "comp":
+		x.evCLI(event, arg, false, nil)
 	case "begin":
 		x.evStep(event, x.holder(arg), "open-step")
 	case "step":
@@ -1075,13 +1095,38 @@ func flagLabel(arg string) string {
 	return parts[0] + "-with-flags(" + strings.Join(fs, ",") + ")"
 }
 
+// compLabel renders "<name>[+<flag>]" as "complete-<command path>[-flag(<flag>)]".
+func compLabel(arg string) string {
+	name, flag, _ := strings.Cut(arg, "+")
+	l := "complete-" + strings.Join(cmdPath(cliCatalogue[name]), "-")
+	if flag != "" {
+		l += "-flag(" + flag + ")"
+	}
+	return l
+}
+
 func (x *execution) evCLI(event, name string, otherUID bool, flags []string) {
+	completion := strings.HasPrefix(event, "comp:")
+	compFlag := ""
+	if completion {
+		name, compFlag, _ = strings.Cut(name, "+")
+	}
 	args, ok := cliCatalogue[name]
 	if !ok {
 		panic(herr("unknown command %q", name))
 	}
 	label := name
 	limit := time.Duration(0)
+	if completion {
+		// what the shell runs when the user hits TAB after the command (or after one of its flags)
+		label = compLabel(strings.TrimPrefix(event, "comp:"))
+		c := append([]string{"__complete"}, cmdPath(args)...)
+		if compFlag != "" {
+			c = append(c, "--"+compFlag)
+		}
+		args = append(c, "")
+		limit = flagLimit
+	}
 	if len(flags) > 0 {
 		// the extra flags go first: where the catalogue sets the same flag, its value stays in force
 		var extra []string
@@ -1161,6 +1206,18 @@ func (x *execution) evCLI(event, name string, otherUID bool, flags []string) {
 	outcome += " lock-after=" + lockKind(lc)
 	x.obs(event, outcome, strings.TrimSpace(stdout+"\n"+stderr))
 	who := "command-" + label
+	if completion && code != 0 && code != 1 {
+		x.report("process-died", "completion|"+x.ctx(), fmt.Sprintf("git-bug %s ended with status %d: %s", strings.Join(args, " "), code, firstLine(stderr)))
+	}
+	if q != "" && completion {
+		// cobra swallows the error of a completion function: no refusal message can be asked for, but the
+		// attempt must change nothing (the live holder's lock file is judged by checkLiveLock after the event)
+		if d := diffDigest(before, x.digest()); len(d) > 0 {
+			x.report("refused-open-changed-files", who+"|"+x.ctx(),
+				fmt.Sprintf("%s (pid %d, alive) holds the cache; git-bug %s changed the repository: %v", q, x.holders[q].pid, strings.Join(args, " "), d))
+		}
+		return
+	}
 	if q != "" {
 		x.expectRefused(event, who, q, code != 0, stderr, before)
 		return
